@@ -932,7 +932,13 @@ fn check_if_else(
 ) -> expr::IfElse<Arc<Type>> {
   let condition = Box::new(match expression.condition.as_ref() {
     expr::IfElseCondition::Expression(expr) => {
-      expr::IfElseCondition::Expression(type_check_expression(cx, expr, type_hint::MISSING))
+      let checked = type_check_expression(cx, expr, type_hint::MISSING);
+      let bool_type = Type::Primitive(
+        Reason::new(checked.loc(), Some(checked.loc())),
+        PrimitiveTypeKind::Bool,
+      );
+      assignability_check(cx, checked.loc(), checked.type_(), &bool_type);
+      expr::IfElseCondition::Expression(checked)
     }
     expr::IfElseCondition::Guard(p, expr) => {
       let expr = type_check_expression(cx, expr, type_hint::MISSING);
